@@ -10,7 +10,7 @@ from ..interp import Interp, Hooks
 from ..templates import extract, generic_instances, show
 from ..formulas import LANGS
 from .. import oracle
-from ..report import Finding, RuleResult, floor, Attempts
+from ..report import Finding, RuleResult, floor, Attempts, adopt
 
 PROP = 'C05'
 METHOD = 'get_equivalent_restricted_formula'
@@ -301,4 +301,7 @@ def run(prog, tier, seed):
                    'bounded verdicts hold up to the stated model size',
                    'LNot is used as a summary in R-RW-1/2 and verified '
                    'separately by R-RW-3']
-    return T.results(r1, r2, r3), expl, assumptions, T.extra()
+    from . import c11
+    dep = adopt(T.results(T(c11.rule_eq2, prog)), PROP,
+                'the rewriters of leaves return clone()')
+    return T.results(r1, r2, r3) + dep, expl, assumptions, T.extra()
